@@ -674,7 +674,9 @@ func (ls *LanceroSource) launchLanceroReader() {
 				}
 				q, p, ncols, err := lancero.FindFrameBits(b, lanceroFBOffset)
 				nrows := (p - q) / ncols
-				if ncols != dev.ncols || nrows != dev.nrows || err != nil {
+				// A first frame start more than one frame into the buffer (q too large) means that the
+				// first-row words of a frame are missing: that cannot be re-aligned below either.
+				if ncols != dev.ncols || nrows != dev.nrows || err != nil || q > dev.ncols*dev.nrows {
 					fmt.Printf("ncols have %v, want %v. nrows have %v, want %v, timeSinceLastSuccesfulRead %v\n",
 						ncols, dev.ncols, nrows, dev.nrows, timeSinceLastSuccesfulRead)
 					dev.card.ReleaseBytes(len(b))
